@@ -100,6 +100,7 @@ def guarded_execute(prop, sc, wall=None):
 
 
 _PINNED = False
+DUMP = bool(os.environ.get("VERIF_DUMP"))
 
 
 def _pin():
@@ -125,6 +126,7 @@ def _chunk(args):
     prop = load_prop(pid)
     known = load_known()
     agg = {
+        "dump": [],
         "suppressed": collections.Counter(),
         "n": 0, "digests": set(), "nontrivial": 0, "probes": collections.Counter(), "faults": collections.Counter(),
         "sim_time": 0.0, "steps": 0, "samples": [], "viol": [], "errors": [], "nt_digests": set(), "scenarios": 0,
@@ -147,6 +149,9 @@ def _chunk(args):
             continue
         agg["n"] += out.evals
         agg["scenarios"] += 1
+        if DUMP:
+            agg["dump"].append((i, [h64(dg) for dg, _ in (out.digests if out.digests is not None else [(out.digest, 0)])],
+                                [v[0] for v in out.viol], out.steps, round(out.sim_time, 6)))
         for dg, nt in (out.digests if out.digests is not None else [(out.digest, out.nontrivial)]):
             d = h64(dg)
             agg["digests"].add(d)
@@ -354,6 +359,7 @@ def check(pid, tier="quick", runs=None, procs=None, vseed=None, budget=None):
         "sim_time": 0.0, "steps": 0, "samples": [], "viol": [], "errors": [], "scenarios": 0,
     }
     suppressed = collections.Counter()
+    dump = []
     ctx = multiprocessing.get_context("fork")
     harness_error = None
     with cf.ProcessPoolExecutor(max_workers=procs, mp_context=ctx) as ex:
@@ -374,6 +380,7 @@ def check(pid, tier="quick", runs=None, procs=None, vseed=None, budget=None):
                     total["samples"].extend(a["samples"][: 3 - len(total["samples"])])
                 total["viol"].extend(a["viol"])
                 suppressed.update(a["suppressed"])
+                dump.extend(a["dump"])
                 total["errors"].extend(a["errors"])
         except (cf.TimeoutError, cf.process.BrokenProcessPool) as e:
             harness_error = "worker pool failed: %r" % (e,)
@@ -382,6 +389,10 @@ def check(pid, tier="quick", runs=None, procs=None, vseed=None, budget=None):
                     p.kill()
                 except Exception:
                     pass
+    if DUMP:
+        with open(os.environ["VERIF_DUMP"], "w") as f:
+            for row in sorted(dump):
+                f.write(json.dumps(row) + "\n")
     if total["errors"] and not harness_error:
         harness_error = "%d scenario(s) raised inside the harness; first: %s" % (len(total["errors"]), total["errors"][0])
     if harness_error:
